@@ -22,6 +22,7 @@ META = {
         "C08.A1 system bytes flow unchanged: send_response -> _create_message_for_function -> header constructor (both protocols, positional/keyword binding checked against the constructor signature)",
         "C08.X1 nothing that can raise precedes the message_received hand-over in the protocol layer (uncatalogued S/F and malformed bodies must reach the handler)",
         "C08.C1 CallbackHandler: membership test and call use the same lookup (registered callback, else _on_<name> of the target)",
+        "C08.S1 on the serial line a queued (reply) block is dequeued only when it is about to be transferred and is resolved exactly once (shared with C17.P2)",
         "C08.R1 no request function leaves its response queue registered (a stale entry swallows a later primary carrying the same system bytes, which then gets no reply)",
     ],
     "does_not_decide": ["the content of the secondary beyond its class", "whether communication is established (C07.P1)"],
@@ -403,6 +404,12 @@ def check_stale_registrations(ctx):
 
 
 def run(ctx):
+    # a reply is a queued block: on the serial line it is transferred (or reported failed) exactly once, whatever the
+    # line contention (rules shared with C17.P2)
+    from .. import report
+    from .c17 import check_send
+
+    report.share(ctx, "C08.S1", check_send)
     check_stale_registrations(ctx)
     check_handle_stream_function(ctx)
     check_callbacks(ctx)
